@@ -17,6 +17,7 @@ use std::path::{Path, PathBuf};
 
 use crate::config::{StructureConfig, UNLIMITED};
 use crate::error::Result;
+use crate::output::path::normalize_for_matching;
 
 use super::explain::{
     MatchStatus, StructureExplanation, StructureRuleCandidate, StructureRuleMatch,
@@ -98,6 +99,8 @@ impl StructureChecker {
     fn resolve_limits(&self, path: &Path) -> StructureLimits {
         // Check rules (glob patterns) - last match wins
         // Iterate in reverse to find the last matching rule
+        // Scopes are written relative to the project root: match without the leading `./`
+        let path = &normalize_for_matching(path);
         for rule in self.rules.iter().rev() {
             if rule.matcher.is_match(path) {
                 return StructureLimits {
@@ -338,7 +341,8 @@ impl StructureChecker {
         let mut violations = Vec::new();
 
         for (parent, dir_files) in files_by_parent {
-            // Find rules that apply to this directory
+            // Find rules that apply to this directory (scopes are project-relative)
+            let parent = &normalize_for_matching(parent);
             let applicable_rules: Vec<_> = self
                 .sibling_rules
                 .iter()
@@ -538,6 +542,7 @@ impl StructureChecker {
 
         // Check rules (last match wins for consistency with content rules)
         // First find the index of the last matching rule
+        let path = &normalize_for_matching(path);
         let last_matching_rule_idx = self
             .rules
             .iter()
